@@ -468,6 +468,7 @@ def generate(repo='/repo'):
             except Exception as e:   # noqa  (a reader bug must not become an alarm)
                 reason = 'reader error %s: %s' % (type(e).__name__, e)
         if body is None:
+            reason = ' '.join(str(reason).split())
             info['unparsed'].append('%s: %s' % (cname, reason))
             info['classes'][cname] = {'parsed': False, 'reason': reason}
             parts.append('/-- %s._stamp : NOT PARSED (%s) -/\n' % (cname, reason.replace('-/', '- /')))
@@ -508,6 +509,8 @@ def generate(repo='/repo'):
         eff.append((ty, got or '?'))
         if got != EFFECTIVE[ty]:
             info['unparsed'].append('%s: stamped by %s._stamp, expected %s._stamp' % (ty, got, EFFECTIVE[ty]))
+    for k in ('assignments', 'guard_issues', 'sort_issues', 'preconditions'):      # the same statement is met once per path
+        info[k] = [x for i, x in enumerate(info[k]) if x not in info[k][:i]]
     all_acc = not info['assignments']
     guards_ok = not info['guard_issues'] and not info['sort_issues']
     parts.append('/-- plain assignments `mna._X[...] = v` found in the parsed `_stamp` methods -/\n')
